@@ -678,6 +678,15 @@ impl<T: ?Sized> RwLock<T> {
     }
 }
 
+#[cfg(feature = "verif-hooks")]
+impl<T: ?Sized> RwLock<T> {
+    /// See `RawRwLock::__verif_snapshot`.
+    #[doc(hidden)]
+    pub fn __verif_snapshot(&self) -> crate::__verif::Snapshot {
+        self.raw.__verif_snapshot()
+    }
+}
+
 impl<T: fmt::Debug + ?Sized> fmt::Debug for RwLock<T> {
     fn fmt(&self, f: &mut fmt::Formatter<'_>) -> fmt::Result {
         struct Locked;
